@@ -1306,6 +1306,7 @@ def spec_dom_constructors(ctx, make_exe):
 # ----------------------------------------------------------------------------
 
 def spec_nth_parse(ctx, make_exe):
+    """The an+b value closures: never panic, and compute a = sign_a * |a| (|a| = 1 when omitted), b = sign_b * |b|."""
     closures = ctx.find(r"parse_nth_child_args::\{closure#\d+\}$")
     closures = [f for f in closures if any(re.search(r"FromStr>::from_str", " ".join(b.raw)) for b in f.blocks.values())]
     if len(closures) < 3:
@@ -1314,38 +1315,84 @@ def spec_nth_parse(ctx, make_exe):
     import summaries
     orig = summaries.summarize
     for f in closures:
-        exe = make_exe(inline=[r"parser::Sign::val$", r"Sign::val$"])
+        arity = len(re.findall(r",", f.args[1][1])) + 1 if len(f.args) > 1 else 0
+        tuple_ty = f.args[1][1]
+        has_a = "Option<&str>" in tuple_ty
+        both = tuple_ty.count("parser::Sign") == 2 or tuple_ty.count("Sign") == 2
+        for a_given in ((True, False) if has_a else (None,)):
+            exe = make_exe(inline=[r"Sign::val$"])
+            st = State()
+            va = exe.fresh("i64", "a_digits")
+            vb = exe.fresh("i64", "b_digits")
+            st.pc += [va.e >= 0, va.e <= (1 << 40), vb.e >= 0, vb.e <= (1 << 40)]
+            sa = VOpaque("css::parser::Sign", "a_sign")
+            sb = VOpaque("css::parser::Sign", "b_sign")
+            dsa = VAgg("DigitStr", None, [va])
+            dsb = VAgg("DigitStr", None, [vb])
+            if has_a and both:
+                arg = VAgg("tuple", None, [sa, VAgg("Option::Some", "Some", [dsa]) if a_given else VAgg("Option::None", "None", []),
+                                           VOpaque("&str", "n"), VUnit(), sb, dsb])
+            elif has_a:
+                arg = VAgg("tuple", None, [sa, VAgg("Option::Some", "Some", [dsa]) if a_given else VAgg("Option::None", "None", []), VOpaque("&str", "n")])
+            else:
+                arg = VAgg("tuple", None, [sb, dsb])
 
-        def summ(exe_, st_, f_, bb_, callee, args, dest_ty):
-            c = callee.strip()
-            if re.search(r"<i32 as FromStr>::from_str$", c):
-                # digit1 matched one or more ASCII digits of any length: the value fits i32 or parsing fails
-                outs = []
-                ok = st_.clone()
-                v = exe_.fresh("i32", exe_.fresh_name("parsed"))
-                ok.pc.append(v.e >= 0)
-                outs.append((ok, VAgg("Result::Ok", "Ok", [v])))
-                err = st_.clone()
-                outs.append((err, VAgg("Result::Err", "Err", [VOpaque("ParseIntError", "too_many_digits")])))
-                return outs
-            if re.search(r"Result::<.*>::unwrap$", c):
-                v = args[0]
-                if isinstance(v, VAgg) and v.variant == "Ok":
-                    return [(st_, v.fields[0])]
-                if isinstance(v, VAgg) and v.variant == "Err":
-                    exe_.oblige(st_, z3.BoolVal(False), "panic", f_.name, bb_, "unwrap on a failed integer parse (too many digits)", tag="unwrap")
-                    return []
-            return orig(exe_, st_, f_, bb_, callee, args, dest_ty)
-        summaries.summarize = summ
-        try:
-            outs = exe.run(f.name, {}, State())
-        finally:
-            summaries.summarize = orig
-        total += len(outs)
-        for (s2, ret) in outs:
-            ok = isinstance(ret, VAgg) and (ret.path == "tuple" or ret.variant in ("Ok", "Err"))
-            post(exe, s2, z3.BoolVal(bool(ok)), f.name, "the closure returns a coefficient pair (or an error value)")
+            def summ(exe_, st_, f_, bb_, callee, args, dest_ty):
+                c = callee.strip()
+                if re.search(r"<i32 as FromStr>::from_str$", c):
+                    x = args[0]
+                    if isinstance(x, VOpaque) and '"1"' in x.name:
+                        return [(st_, VAgg("Result::Ok", "Ok", [VInt(z3.BitVecVal(1, 32), 32, True)]))]
+                    if isinstance(x, VAgg) and x.path == "DigitStr":
+                        v = x.fields[0]
+                        fits = v.e <= ((1 << 31) - 1)
+                        outs = []
+                        if exe_.feasible(st_, fits):
+                            ok = st_.clone()
+                            ok.pc.append(fits)
+                            outs.append((ok, VAgg("Result::Ok", "Ok", [VInt(z3.Extract(31, 0, v.e), 32, True)])))
+                        if exe_.feasible(st_, z3.Not(fits)):
+                            er = st_.clone()
+                            er.pc.append(z3.Not(fits))
+                            outs.append((er, VAgg("Result::Err", "Err", [VOpaque("ParseIntError", "too_many_digits")])))
+                        return outs
+                    return None
+                if re.search(r"Result::<.*>::unwrap$", c):
+                    v = args[0]
+                    if isinstance(v, VAgg) and v.variant == "Ok":
+                        return [(st_, v.fields[0])]
+                    if isinstance(v, VAgg) and v.variant == "Err":
+                        exe_.oblige(st_, z3.BoolVal(False), "panic", f_.name, bb_, "unwrap on a failed integer parse (too many digits)", tag="unwrap")
+                        return []
+                return orig(exe_, st_, f_, bb_, callee, args, dest_ty)
+            summaries.summarize = summ
+            try:
+                outs = exe.run(f.name, {2: arg}, st)
+            finally:
+                summaries.summarize = orig
+            total += len(outs)
+            for (s2, ret) in outs:
+                val = ret
+                if isinstance(val, VAgg) and val.variant == "Err":
+                    continue
+                if isinstance(val, VAgg) and val.variant == "Ok":
+                    val = val.fields[0]
+                if not (isinstance(val, VAgg) and val.path == "tuple" and len(val.fields) == 2):
+                    post(exe, s2, z3.BoolVal(False), f.name, "the closure returns a coefficient pair (or an error value)")
+                    continue
+                a, b = val.fields
+                sgn = lambda name: z3.If(exe.inputs[name + ".discr"] == 0, z3.BitVecVal(1, 32), z3.BitVecVal(-1, 32)) if (name + ".discr") in exe.inputs else z3.BitVecVal(1, 32)
+                a32 = z3.Extract(31, 0, va.e) if a_given else z3.BitVecVal(1, 32)
+                b32 = z3.Extract(31, 0, vb.e)
+                if has_a and both:
+                    post(exe, s2, z3.And(a.e == sgn("a_sign") * a32, b.e == sgn("b_sign") * b32), f.name,
+                         "an+b: a = sign * digits (1 when omitted), b = sign * digits")
+                elif has_a:
+                    post(exe, s2, z3.And(a.e == sgn("a_sign") * a32, b.e == 0), f.name, "an: a = sign * digits (1 when omitted), b = 0")
+                else:
+                    post(exe, s2, z3.And(a.e == 0, b.e == sgn("b_sign") * b32), f.name, "b only: a = 0, b = sign * digits")
     return {"closures": [f.name for f in closures], "paths": total}
+
 
 # ----------------------------------------------------------------------------
 # SPEC: size estimates of container nodes: sizes add, minimum widths take the maximum,
@@ -1712,6 +1759,68 @@ def spec_css_token_progress(ctx, make_exe):
         raise Inconclusive("only %d successful paths through parse_token" % n_ok)
     return {"function": f.name, "paths": len(outs), "ok_paths": n_ok}
 
+# ----------------------------------------------------------------------------
+# SPEC: child / descendant combinators continue the match on the parent (never on the element itself)
+# ----------------------------------------------------------------------------
+
+def spec_selector_combinators(ctx, make_exe):
+    f = the(ctx.find(r"do_matches$", debug=["comps", "node", "parent"]), "Selector::do_matches")
+    total = 0
+    import summaries
+    orig = summaries.summarize
+    for comb in ("CombChild", "CombDescendant"):
+        exe = make_exe(loop_bound=4)
+        comps = VVec([VAgg("SelectorComponent::" + comb, comb, []), VOpaque("SelectorComponent", "next_component")])
+        node = VRef("val", VOpaque("Rc<Node>", "the_node"))
+        rec = []
+        has_parent = exe.fresh("bool", "has_parent")
+        r_rest = exe.fresh("bool", "rest_matches_parent")
+        r_same = exe.fresh("bool", "same_matches_parent")
+
+        def summ(exe_, st_, f_, bb_, callee, args, dest_ty, comb=comb):
+            c = callee.strip()
+            if re.search(r"^Node::get_parent$", c) or re.search(r"::get_parent$", c):
+                some = st_.clone()
+                some.pc.append(has_parent.e)
+                none = st_.clone()
+                none.pc.append(z3.Not(has_parent.e))
+                return [(some, VAgg("Option::Some", "Some", [VOpaque("Rc<Node>", "the_parent")])),
+                        (none, VAgg("Option::None", "None", []))]
+            if re.search(r"core::slice::<impl \[.*\]>::first$", c):
+                return [(st_, VAgg("Option::Some", "Some", [VRef("val", comps.elems[0])]))]
+            if re.search(r"^<\[SelectorComponent\] as Index<std::ops::RangeFrom<usize>>>::index$", c):
+                return [(st_, VRef("val", VOpaque("[SelectorComponent]", "comps_tail")))]
+            if re.search(r"Selector::do_matches$", c):
+                on = args[1]
+                tgt = exe_.deref(st_, on) if isinstance(on, VRef) else on
+                which = getattr(args[0], "name", None)
+                if isinstance(args[0], VRef):
+                    inner = exe_.deref(st_, args[0])
+                    which = getattr(inner, "name", "comps") if not isinstance(inner, VVec) else "comps"
+                rec.append((which, getattr(tgt, "name", "?")))
+                return [(st_, r_rest if which == "comps_tail" else r_same)]
+            if re.search(r"as Deref>::deref$", c):
+                return [(st_, args[0])]
+            return orig(exe_, st_, f_, bb_, callee, args, dest_ty)
+        summaries.summarize = summ
+        try:
+            outs = exe.run(f.name, {1: VRef("val", comps), 2: node}, State())
+        finally:
+            summaries.summarize = orig
+        total += len(outs)
+        post(exe, State(), z3.BoolVal(all(t == "the_parent" for (_, t) in rec) and len(rec) >= 1), f.name,
+             "%s: the rest of the selector is matched against the parent element, never the element itself (%s)" % (comb, rec))
+        for (s2, ret) in outs:
+            if not isinstance(ret, VBool):
+                raise Inconclusive("do_matches did not return a boolean")
+            if comb == "CombChild":
+                want = z3.And(has_parent.e, r_rest.e)
+            else:
+                want = z3.And(has_parent.e, z3.Or(r_rest.e, r_same.e))
+            post(exe, s2, ret.e == want, f.name, "%s: matches iff the parent matches the rest%s" % (
+                comb, "" if comb == "CombChild" else " or the same selector holds one level up"))
+    return {"function": f.name, "paths": total}
+
 
 ALL = [
     Spec("table_col_width", ["C06", "C02", "C01"], spec_table_col_width,
@@ -1786,11 +1895,11 @@ ALL = [
          assumptions=["children are opaque nodes; is_shallow_empty returns an arbitrary boolean per child",
                       "the id / pseudo-content wrappers (which call the inner constructor through a boxed FnOnce) are skipped"],
          replay=lambda fd, vals, info: {"harness": "m_dom_children", "values": [[0]]}),
-    Spec("nth_parse", ["C17", "C01"], spec_nth_parse,
+    Spec("nth_parse", ["C17", "C20", "C01"], spec_nth_parse,
          functions=["parse_nth_child_args::{closure} (the three an+b value closures)"],
          bounds="digit strings of any length (integer parsing either yields a non-negative i32 or fails); any sign",
          assumptions=["<i32 as FromStr>::from_str by contract on digit-only input", "the nom combinators around the closures are not executed"],
-         replay=lambda fd, vals, info: {"harness": "m_nth_parse", "values": [[0]]}),
+         replay=lambda fd, vals, info: {"harness": "m_nth_parse" if fd.kind == "panic" else "m_descendant_self", "values": [[0]]}),
     Spec("size_estimate_arms", ["C11", "C07", "C16"], spec_size_estimate_arms,
          functions=["RenderNode::calc_size_estimate (container, link, blockquote, ul, dd, header, ol, break, fragment arms)",
                     "SizeEstimate::add", "SizeEstimate::add_hor"],
@@ -1818,6 +1927,11 @@ ALL = [
          bounds="any first character (any Unicode scalar), any remaining length; every match arm of the tokenizer",
          assumptions=["strings are (offset, length) slices of the stylesheet", "sub-parsers either fail or consume at least one byte (their own obligation)"],
          replay=lambda fd, vals, info: {"harness": "m_css_progress", "values": [le_bytes(int(vals.get("first_char", 35)), 4)]}),
+    Spec("selector_combinators", ["C20"], spec_selector_combinators,
+         functions=["Selector::do_matches (CombChild and CombDescendant arms)"],
+         bounds="the element may or may not have a parent; the results of the recursive matches are arbitrary booleans",
+         assumptions=["Node::get_parent returns an arbitrary optional parent; recursive do_matches calls are observed (their arguments) and return arbitrary booleans"],
+         replay=lambda fd, vals, info: {"harness": "m_descendant_self", "values": [[0]]}),
     Spec("table_alloc_2col", ["C06", "C02", "C01", "C03"], spec_table_alloc_2,
          functions=["render_table_tree (whole function incl. estimate loop, allocation closures, shrink loop)",
                     "RenderTable::rows", "RenderTableRow::cells", "RenderTableCell::get_size_estimate", "SizeEstimate::max",
